@@ -330,8 +330,58 @@ func (r *Run) heapGet(st *State, key string) Term {
 	if !r.declared[n] {
 		r.declared[n] = true
 		r.emit(fmt.Sprintf("(declare-const %s %s)", n, d.sort))
+		if key != "alloc" {
+			if wf := r.heapWFTerm(key, Term{n, d.sort}, Term{"wm_0", "Int"}); wf.S != "true" {
+				r.heapGet(st, "alloc")
+				r.emit(fmt.Sprintf("(assert %s)", wf.S))
+			}
+		}
 	}
 	return Term{n, d.sort}
+}
+
+// heapWFTerm: every reference stored in heap H (of the given key) is allocated w.r.t. wm.
+func (r *Run) heapWFTerm(key string, H Term, wm Term) Term {
+	u := r.eng.u
+	d := r.eng.heapDecls[key]
+	if d == nil || d.T == nil {
+		return tTrue
+	}
+	switch d.kind {
+	case "H":
+		ok := u.okTerm(d.T, sel(H, Term{"wx", "Int"}), wm)
+		if ok.S == "true" {
+			return tTrue
+		}
+		return Term{fmt.Sprintf("(forall ((wx Int)) (! %s :pattern (%s)))", ok.S, sel(H, Term{"wx", "Int"}).S), "Bool"}
+	case "A":
+		e := sel(sel(H, Term{"wx", "Int"}), Term{"wi", "Int"})
+		ok := u.okTerm(d.T, e, wm)
+		if ok.S == "true" {
+			return tTrue
+		}
+		return Term{fmt.Sprintf("(forall ((wx Int) (wi Int)) (! %s :pattern (%s)))", ok.S, e.S), "Bool"}
+	case "MV":
+		ks := arrayKeySort(arrayValSort(H.Sort))
+		e := sel(sel(H, Term{"wx", "Int"}), Term{"wk", ks})
+		ok := u.okTerm(d.T, e, wm)
+		if ok.S == "true" {
+			return tTrue
+		}
+		return Term{fmt.Sprintf("(forall ((wx Int) (wk %s)) (! %s :pattern (%s)))", ks, ok.S, e.S), "Bool"}
+	case "G":
+		return u.okTerm(d.T, H, wm)
+	}
+	return tTrue
+}
+
+// assumeHeapWF: after a heap version was introduced by havoc, everything stored in it is allocated.
+func (r *Run) assumeHeapWF(st *State, key string) {
+	if key == "alloc" {
+		return
+	}
+	wf := r.heapWFTerm(key, r.heapGet(st, key), r.heapGet(st, r.eng.heapKeyAlloc()))
+	r.assume(st, wf)
 }
 
 func (r *Run) heapSet(st *State, key string, t Term) {
@@ -346,13 +396,20 @@ func (e *Engine) declHeap(key, name, sort string) string {
 	return key
 }
 
+func (e *Engine) declHeapT(key, name, sort, kind string, T types.Type) string {
+	if _, ok := e.heapDecls[key]; !ok {
+		e.heapDecls[key] = &HeapDecl{key: key, name: name, sort: sort, kind: kind, T: T}
+	}
+	return key
+}
+
 func (e *Engine) heapKeyObj(T types.Type) string {
 	key := "H|" + typeKey(T)
-	return e.declHeap(key, "H_"+mangle(shortTypeName(T)), arraySort("Int", e.u.sortOf(T)))
+	return e.declHeapT(key, "H_"+mangle(shortTypeName(T)), arraySort("Int", e.u.sortOf(T)), "H", T)
 }
 func (e *Engine) heapKeyArr(T types.Type) string {
 	key := "A|" + typeKey(T)
-	return e.declHeap(key, "A_"+mangle(shortTypeName(T)), arraySort("Int", arraySort("Int", e.u.sortOf(T))))
+	return e.declHeapT(key, "A_"+mangle(shortTypeName(T)), arraySort("Int", arraySort("Int", e.u.sortOf(T))), "A", T)
 }
 func (e *Engine) heapKeyMapHas(m *types.Map) string {
 	key := "MH|" + typeKey(m.Key()) + "|" + typeKey(m.Elem())
@@ -360,7 +417,7 @@ func (e *Engine) heapKeyMapHas(m *types.Map) string {
 }
 func (e *Engine) heapKeyMapVal(m *types.Map) string {
 	key := "MV|" + typeKey(m.Key()) + "|" + typeKey(m.Elem())
-	return e.declHeap(key, "MV_"+mangle(shortTypeName(m.Key()))+"_"+mangle(shortTypeName(m.Elem())), arraySort("Int", arraySort(e.u.sortOf(m.Key()), e.u.sortOf(m.Elem()))))
+	return e.declHeapT(key, "MV_"+mangle(shortTypeName(m.Key()))+"_"+mangle(shortTypeName(m.Elem())), arraySort("Int", arraySort(e.u.sortOf(m.Key()), e.u.sortOf(m.Elem()))), "MV", m.Elem())
 }
 func (e *Engine) heapKeyMapLen(m *types.Map) string {
 	key := "ML|" + typeKey(m.Key()) + "|" + typeKey(m.Elem())
@@ -369,7 +426,7 @@ func (e *Engine) heapKeyMapLen(m *types.Map) string {
 func (e *Engine) heapKeyGlobal(g *ssa.Global) string {
 	key := "G|" + g.String()
 	T := g.Type().(*types.Pointer).Elem()
-	return e.declHeap(key, "G_"+mangle(g.Pkg.Pkg.Name()+"_"+g.Name()), e.u.sortOf(T))
+	return e.declHeapT(key, "G_"+mangle(g.Pkg.Pkg.Name()+"_"+g.Name()), e.u.sortOf(T), "G", T)
 }
 func (e *Engine) heapKeyAlloc() string {
 	return e.declHeap("alloc", "wm", "Int")
